@@ -1,4 +1,5 @@
 import WindVerif.Proofs.Buffers
+import WindVerif.Proofs.RingSeq
 /-!
 # C15 — Reorder buffers emit each item once in serial order; ring buffer keeps last N
 
@@ -86,5 +87,56 @@ theorem ring_get_spec (c : Nat) (hc : 0 < c) (evs : List (Option Nat)) (i : Int)
 example : (runBuf (· + 100) Buf.empty [] [.feed 1, .feed 2, .drain, .feed 0, .drain]).2 = [100, 101, 102] := by decide
 example : (serials [Ev.feed 1, .feed 2, .drain, .feed 0, .drain]).Nodup := by decide
 example : ((runRing (Ring.new 3) [] [some 1, some 2, some 3, some 4]).1).toList = [2, 3, 4] := by decide
+
+/-! ### The inherited `collections.abc.Sequence` interface of `CircularBuffer`
+
+Models in `Model/RingSeq.lean` (the mixin methods as CPython 3.12 `_collections_abc.py` writes them, on top of `Ring.get` =
+`__getitem__` and `Ring.size` = `__len__`), proofs in `Proofs/RingSeq.lean`.  They agree with the builtin list holding the
+presented content (`Ring.toList`, characterised by `ring_spec`); the only hypothesis is `0 < max_size`, which the
+constructor asserts (`ring_maxSize_pos`: every reachable state meets it). -/
+
+/-- every state reached from `CircularBuffer(c)`, `c > 0`, has a positive `max_size` -/
+theorem ring_maxSize_pos (c : Nat) (hc : 0 < c) (evs : List (Option Nat)) :
+    0 < (runRing (Ring.new c) [] evs).1.maxSize := by
+  first | exact WindVerif.Buffers.ring_maxSize_pos .. | (apply WindVerif.Buffers.ring_maxSize_pos <;> assumption)
+
+/-- `list(ring)` through `Sequence.__iter__` (index until `IndexError`) is the presented list -/
+theorem ringIter_spec (r : Ring) (h : 0 < r.maxSize) : ringIter r = r.toList := by
+  first | exact WindVerif.Buffers.ringIter_spec .. | (apply WindVerif.Buffers.ringIter_spec <;> assumption)
+
+/-- the iteration loop has ended within `len + 1` steps: more fuel changes nothing -/
+theorem ringIter_fuel (r : Ring) (h : 0 < r.maxSize) (extra : Nat) :
+    ringIterLoop r (r.size + 1 + extra) 0 = ringIter r := by
+  first | exact WindVerif.Buffers.ringIter_fuel .. | (apply WindVerif.Buffers.ringIter_fuel <;> assumption)
+
+/-- `value in ring` -/
+theorem ringContains_iff (r : Ring) (v : Nat) (h : 0 < r.maxSize) : ringContains r v = true ↔ v ∈ r.toList := by
+  first | exact WindVerif.Buffers.ringContains_iff .. | (apply WindVerif.Buffers.ringContains_iff <;> assumption)
+
+/-- `reversed(ring)` -/
+theorem ringReversed_spec (r : Ring) (h : 0 < r.maxSize) : ringReversed r = .ok r.toList.reverse := by
+  first | exact WindVerif.Buffers.ringReversed_spec .. | (apply WindVerif.Buffers.ringReversed_spec <;> assumption)
+
+/-- `ring.count(value)` -/
+theorem ringCount_spec (r : Ring) (v : Nat) (h : 0 < r.maxSize) : ringCount r v = r.toList.count v := by
+  first | exact WindVerif.Buffers.ringCount_spec .. | (apply WindVerif.Buffers.ringCount_spec <;> assumption)
+
+/-- `ring.index(value, start, stop)` of the mixin agrees with `list.index` of the presented list for ALL arguments (negative,
+too big, missing): the same position, or `ValueError` in both -/
+theorem ringIndex_spec (r : Ring) (v : Nat) (start stop : Option Int) (h : 0 < r.maxSize) :
+    ringIndex r v start stop =
+      (match pyListIndex r.toList v start stop with
+       | some i => .ok i
+       | none => .error .valueError) := by
+  first | exact WindVerif.Buffers.ringIndex_spec .. | (apply WindVerif.Buffers.ringIndex_spec <;> assumption)
+
+/-- non-vacuity: a wrapped-around buffer; negative and missing bounds -/
+example : 0 < ((runRing (Ring.new 3) [] [some 1, some 2, some 3, some 2]).1).maxSize := by decide
+example : let r := (runRing (Ring.new 3) [] [some 1, some 2, some 3, some 2]).1
+    ringIter r = [2, 3, 2] ∧ (ringReversed r).toOption = some [2, 3, 2] ∧ ringCount r 2 = 2 ∧ ringContains r 1 = false ∧
+    (ringIndex r 2 none none).toOption = some 0 ∧ (ringIndex r 2 (some (-2)) none).toOption = some 2 ∧
+    (ringIndex r 2 (some 1) (some (-1))).toOption = none ∧ (ringIndex r 2 (some (-9)) (some 9)).toOption = some 0 ∧
+    pyListIndex [2, 3, 2] 2 (some (-2)) none = some 2 ∧ pyListIndex [2, 3, 2] 2 (some 1) (some (-1)) = none := by
+  dsimp only; decide
 
 end WindVerif.C15
